@@ -111,6 +111,26 @@ func ordVerdicts(tx *bt.Tx, table []ordUTXO) string {
 	return strings.Join(vs, ",")
 }
 
+// walletCheck: the caller keeps its own slice of wallet records; a flow that rearranges "the UTXOs" must do so in a list of
+// its own.  Returns a marker when the caller's slice no longer holds the records it held, in their order.
+func walletCheck(wallet, before []*bt.UTXO) string {
+	same := len(wallet) == len(before)
+	for i := 0; same && i < len(wallet); i++ {
+		same = wallet[i] == before[i]
+	}
+	if same {
+		return ""
+	}
+	show := func(l []*bt.UTXO) string {
+		var p []string
+		for _, u := range l {
+			p = append(p, fmt.Sprintf("%d", u.Satoshis))
+		}
+		return strings.Join(p, ",")
+	}
+	return "caller-utxo-list-rewritten before=" + show(before) + " after=" + show(wallet) + " "
+}
+
 func copyUTXOs(us []ordUTXO) []*bt.UTXO {
 	var r []*bt.UTXO
 	for _, o := range us {
@@ -134,13 +154,18 @@ func init() {
 				return ordErr("list", err)
 			}
 			p := descTx(pstx)
-			args := &ord.AcceptListingArgs{PSTx: pstx, UTXOs: copyUTXOs(us), BuyerReceiveOrdinalScript: optScr(a[5]),
+			wallet := copyUTXOs(us)
+			before := append([]*bt.UTXO{}, wallet...)
+			args := &ord.AcceptListingArgs{PSTx: pstx, UTXOs: wallet, BuyerReceiveOrdinalScript: optScr(a[5]),
 				DummyOutputScript: optScr(a[6]), ChangeScript: optScr(a[7]), FQ: fq}
 			var tx *bt.Tx
 			if variant == "1" {
 				tx, err = ord.AcceptOrdinalSaleListing(ctx, &ord.ValidateListingArgs{ListedOrdinalUTXO: ou.u}, args)
 			} else {
 				tx, err = ord.AcceptOrdinalSaleListing2Dummies(ctx, &ord.ValidateListingArgs{ListedOrdinalUTXO: ou.u}, args)
+			}
+			if m := walletCheck(wallet, before); m != "" {
+				return m + "pstx=" + p
 			}
 			if err != nil {
 				return ordErr("accept", err) + " pstx=" + p
@@ -156,12 +181,17 @@ func init() {
 			us := parseOrdUTXOs(a[4])
 			var pstx, tx *bt.Tx
 			var err error
+			wallet := copyUTXOs(us)
+			before := append([]*bt.UTXO{}, wallet...)
 			if variant == "1" {
 				pstx, err = ord.MakeBidToBuy1SatOrdinal(ctx, &ord.MakeBidArgs{BidAmount: bid, OrdinalTxID: hexE(ou.u.TxID), OrdinalVOut: ou.u.Vout,
-					BidderUTXOs: copyUTXOs(us), BuyerReceiveOrdinalScript: optScr(a[5]), DummyOutputScript: optScr(a[6]), ChangeScript: optScr(a[7]), FQ: fq})
+					BidderUTXOs: wallet, BuyerReceiveOrdinalScript: optScr(a[5]), DummyOutputScript: optScr(a[6]), ChangeScript: optScr(a[7]), FQ: fq})
 			} else {
 				pstx, err = ord.MakeBidToBuy1SatOrdinal2Dummies(ctx, &ord.MakeBid2DArgs{BidAmount: bid, OrdinalTxID: hexE(ou.u.TxID), OrdinalVOut: ou.u.Vout,
-					BidderUTXOs: copyUTXOs(us), BuyerReceiveOrdinalScript: optScr(a[5]), DummyOutputScript: optScr(a[6]), ChangeScript: optScr(a[7]), FQ: fq})
+					BidderUTXOs: wallet, BuyerReceiveOrdinalScript: optScr(a[5]), DummyOutputScript: optScr(a[6]), ChangeScript: optScr(a[7]), FQ: fq})
+			}
+			if m := walletCheck(wallet, before); m != "" {
+				return m
 			}
 			if err != nil {
 				return ordErr("make", err)
